@@ -49,6 +49,9 @@ class Module:
         stringEnd)
 
     rule.ignore(cppStyleComment)
+    # Keep tab characters as they are (pyparsing would expand them to blanks,
+    # also inside the string literals of default values).
+    rule.parseWithTabs()
 
     @staticmethod
     def parseString(s: str) -> ParseResults:
